@@ -160,6 +160,13 @@ class FieldData:
       The deleted value or None, if the field was not defined.
     """
     if tagname in self.tagnames:
+      if self._gfa and self.__class__.STORAGE_KEY == "name" and \
+          tagname == self.__class__.NAME_FIELD:
+        # the tag is the identifier under which the Gfa knows the line
+        value = self._data[tagname]
+        self._set_existing_field(tagname, None)
+        self._datatype.pop(tagname, None)
+        return value
       if tagname in self._datatype:
         self._datatype.pop(tagname)
       return self._data.pop(tagname)
